@@ -93,6 +93,18 @@ class BufModel(object):
                         break
         return com
 
+    def known_empty(self, fn, el, X):
+        """el is dominated by `v == 0` where v's only definition is X->total_len: resetting an empty buffer changes nothing."""
+        for c, t, b in fn.guards_at(el.bid):
+            c, t = negate_truth(c, t)
+            c = strip(c)
+            if t or not (is_e(c, "var") and c[2] == "local"):
+                continue
+            defs = [rhs for e2, lhs, op, rhs in fn.stores() if is_e(strip(lhs), "var") and strip(lhs)[1] == c[1]]
+            if len(defs) == 1 and is_e(strip(defs[0]), "fld") and strip(defs[0])[2] == TOTAL and self.subject(defs[0]) == X:
+                return True
+        return False
+
     def commits_in(self, fn):
         """elements of fn that are content-visible commits: direct stores, or calls to committing non-benign callees."""
         out = []
@@ -103,8 +115,31 @@ class BufModel(object):
             elif el.e[0] == "call":
                 n = callee_name(el.e)
                 if n in self.committing and n not in BENIGN_CALLEES:
+                    if n == "ZERO_CHAIN" and el.e[2] and self.known_empty(fn, el, self.subject(el.e[2][0])):
+                        continue    # zeroing a buffer that is known to be empty
                     out.append((el, "call %s" % n))
         return out
+
+    # ---- list repair after releasing chains
+    RELEASERS = ("evbuffer_chain_free", "evbuffer_free_all_chains")
+
+    def is_link_repair(self, el):
+        e = el.e
+        if e[0] == "asg":
+            l = strip(e[2])
+            if is_e(l, "fld") and l[2] in ("evbuffer_chain.next", "evbuffer.first"):
+                return True
+            if is_e(l, "deref"):
+                return True          # *chp = ... through a pointer to a link
+            # chained a = b = c
+            for q in walk(e[3]):
+                if is_e(q, "asg") and is_e(strip(q[2]), "fld") and strip(q[2])[2] in ("evbuffer_chain.next", "evbuffer.first"):
+                    return True
+        if e[0] == "call":
+            n = callee_name(e)
+            if n in ("ZERO_CHAIN", "COPY_CHAIN", "RESTORE_PINNED", "event_mm_free_", "free"):
+                return True
+        return False
 
     def subject(self, expr):
         """root variable name of an evbuffer expression (X in X->total_len)."""
